@@ -115,7 +115,7 @@ impl Property for C18 {
         "exploration"
     }
     fn runs(&self, tier: &str) -> u64 {
-        if tier == "thorough" { 1_500_000 } else { 40_000 }
+        if tier == "thorough" { 2_400_000 } else { 40_000 }
     }
     fn rule(&self) -> String {
         "thorough tier first enumerates, for 2500 generated programs, every single stored-byte corruption the generator can interpret (up to 360 per program: every inter-token space -> an illegal character, every statement-level space -> ',', every call name, every string/list '+'); sampled cases: case = (W2 call-tree IR rendered by the layout printer under a seeded layout: tabs, CR LF, blank lines, `;` terminators, comments with multi-byte text, continuation breaks after every documented continuation token, multi-line and multi-byte string literals before call sites) x (write error on fd 1 at a write index => the print call and every active call become reported positions | the first byte of a call's name corrupted in storage => an undefined-name position | a '+' between strings/lists corrupted into '-' => an operator position | one inter-token space replaced by a character no token starts with, incl. multi-byte ones, optionally delivered across read-chunk boundaries => a lexical error position | an inter-token space outside all brackets replaced by ',' => a syntax-error position); oracle: every <line>:<col> on stderr line 1 and on each stack-trace line equals the printer's recorded position of that call's first token; the lexical error position equals the position of the corrupted byte; non-trivial = a fault fired; distinct = distinct (program text, plan)".to_string()
